@@ -80,7 +80,7 @@ IdCat2(L) ==
   { [fam |-> "id",
      ins |-> <<<<AxU(p), AxU(r)>>, <<AxU(p), AxU(s)>>, <<AxU(q), AxU(r)>>, <<AxU(q), AxU(s)>>>>,
      outs |-> <<<<Ct(<<AxU(p), AxU(q)>>), Ct(<<AxU(r), AxU(s)>>)>>>>, L |-> L]
-    : p \in Names, q \in Names, r \in Names, s \in Names }
+    : p \in Names, q \in Names, r \in Names \cup {"c", "d"}, s \in {"c", "d"} }
 
 (* diagonals: one name repeated in a 3-4 axis input, every arrangement of the output *)
 IdDiag(L) ==
